@@ -2,8 +2,8 @@ package appmon
 
 import (
 	"fmt"
-	"os"
 	"math/big"
+	"os"
 	"sort"
 	"strings"
 
@@ -16,29 +16,29 @@ import (
 
 // Monitor implements apphist.Observer. Every check is derived from a property statement.
 type Monitor struct {
-	V          []common.Violation
-	seen       map[string]bool
-	genesis    *big.Int // total value at genesis
-	withdrawn  *big.Int
-	slashed    *big.Int // destroyed by slashing (fons)
-	feeBurn    *big.Int
-	evmBurn    *big.Int
-	blockFees  *big.Int // Σ gasUsed·price of successful txs in the current block
-	blockWd    *big.Int
-	created    map[string]Stake // stakes created by successful staking txs, by hash, until refunded
-	refundDue  map[string]Stake // committed unbonding stakes
-	committed  map[int64]string // canonical dump per committed height
-	answers    map[string]string
-	pendingChg bool   // a parameter change is pending for this commit (legitimately)
-	lastActive string
-	burnOK     bool // the current tx may legitimately burn (self-destruct templates)
+	V             []common.Violation
+	seen          map[string]bool
+	genesis       *big.Int // total value at genesis
+	withdrawn     *big.Int
+	slashed       *big.Int // destroyed by slashing (fons)
+	feeBurn       *big.Int
+	evmBurn       *big.Int
+	blockFees     *big.Int // Σ gasUsed·price of successful txs in the current block
+	blockWd       *big.Int
+	created       map[string]Stake // stakes created by successful staking txs, by hash, until refunded
+	refundDue     map[string]Stake // committed unbonding stakes
+	committed     map[int64]string // canonical dump per committed height
+	answers       map[string]string
+	pendingChg    bool // a parameter change is pending for this commit (legitimately)
+	lastActive    string
+	burnOK        bool // the current tx may legitimately burn (self-destruct templates)
 	block1Changed bool
 	tmKind        string
 	ref           *evmRef
 	refBurn       *big.Int // burn of the current contract tx according to the reference EVM run (nil = unknown)
 	collisionSeen bool
 	genesisDump   string
-	Checks     map[string]int
+	Checks        map[string]int
 }
 
 func New() *Monitor {
